@@ -8,6 +8,7 @@ import (
 	"fmt"
 	"math"
 	"testing"
+	"time"
 
 	ml "github.com/hashicorp/memberlist"
 )
@@ -128,6 +129,77 @@ func c02Oracle(w *world, e cev, ob *stepObs) (string, string) {
 	return "", ""
 }
 
+// c02ReachesSuspected: "gossips an alive message carrying that new incarnation, so the accusation
+// can always be overridden" - also when every peer the node knows has been a mere suspect in its own
+// view for a long time (an isolated node and its accusers suspect each other): the refutation must
+// actually be handed to the transport for such peers, not only sit in the queue.
+func c02ReachesSuspected(t *testing.T, rep *Report) {
+	for _, gtd := range []time.Duration{time.Second, 30 * time.Second} {
+		for _, wait := range []time.Duration{500 * time.Millisecond, 5 * time.Second, 45 * time.Second} {
+			for _, kind := range []string{"suspect", "dead"} {
+				gtd, wait, kind := gtd, wait, kind
+				desc := fmt.Sprintf("peers suspected for %v (GossipToTheDeadTime %v), then a %s claim about the node", wait, gtd, kind)
+				rep.Transitions++
+				res := inBubble(t, func(b *bubble) {
+					installDetRand()
+					nd, err := newNode("o", ip4(1), func(c *ml.Config) {
+						c.GossipToTheDeadTime = gtd
+						c.SuspicionMult = 200 // suspicion outlasts every wait below: the peers stay suspects
+						c.GossipInterval = 200 * time.Millisecond
+					})
+					must(err)
+					o := b.track(nd)
+					advance(time.Microsecond)
+					for i, p := range []string{"p1", "p2"} {
+						o.M.VAliveNode(&ml.VAlive{Incarnation: 1, Node: p, Addr: ip4(byte(10 + i)), Port: 7946, Vsn: defaultVsn}, nil, false)
+					}
+					for _, p := range []string{"p1", "p2"} {
+						o.M.VSuspectNode(&ml.VSuspect{Incarnation: 1, Node: p, From: "t"})
+					}
+					for o.M.VBroadcasts().NumQueued() > 0 {
+						o.M.VGetBroadcasts(0, 1400)
+					}
+					time.Sleep(wait)
+					settle()
+					for _, p := range []string{"p1", "p2"} {
+						if r := findRec(o.M.VSnapshot(), p); r == nil || r.State != ml.StateSuspect {
+							rep.Violate("scenario-broken:reaches-suspected", fmt.Sprintf("%s: %s is %s", desc, p, recStr(r)), nil)
+							return
+						}
+					}
+					own := o.M.VSnapshot().Incarnation
+					if kind == "suspect" {
+						o.M.VSuspectNode(&ml.VSuspect{Incarnation: own + 4, Node: "o", From: "p1"})
+					} else {
+						o.M.VDeadNode(&ml.VDead{Incarnation: own + 4, Node: "o", From: "p1"})
+					}
+					o.T.TakeSent()
+					for i := 0; i < 12; i++ {
+						o.M.VGossip()
+						settle()
+					}
+					sent := false
+					for _, p := range o.T.TakeSent() {
+						leaves, _ := explode(p.Buf)
+						for _, l := range leaves {
+							var a ml.VAlive
+							if l[0] == ml.VAliveMsg && ml.VDecode(l[1:], &a) == nil && a.Node == "o" && a.Incarnation > own+4 {
+								sent = true
+							}
+						}
+					}
+					if !sent {
+						rep.Violate("refutation-never-sent", fmt.Sprintf("%s: the node raised its incarnation to %d but 12 gossip rounds handed no alive message about itself to the transport (its only peers are suspects in its view)", desc, o.M.VSnapshot().Incarnation), nil)
+					}
+				})
+				if res.Panic != nil {
+					rep.Violate("panic", fmt.Sprintf("%s: %v", desc, res.Panic), nil)
+				}
+			}
+		}
+	}
+}
+
 func TestC02(t *testing.T) {
 	rep := newReport()
 	defer rep.Write(t)
@@ -160,6 +232,7 @@ func TestC02(t *testing.T) {
 	}
 	if i, _ := shard(); i == 0 {
 		sc.bfs(t, rep, "default")
+		c02ReachesSuspected(t, rep)
 	}
 	tb := 2
 	if thorough() {
